@@ -328,16 +328,20 @@ def MODULE_FNS(f):
 def r_optional(ctx):
     rid = "C17.optional"
     ctx.rule(rid, "value_member_key_to_field: a named member is generated as an optional field (the one that is left out when None) exactly "
-                  "when it carries the occurrence `?`, whatever its type is — a required member of nullable type `T / null` keeps its key "
+                  "when it carries the occurrence `?` or one of its spelled-out forms `0*1` / `*1`, whatever its type is — a required member of nullable type `T / null` keeps its key "
                   "when it holds null, so that the serialised value still validates (abstract evaluation, type lowering scripted)", floor=6)
     f = ctx.facts
     fi = f.fn(F, "value_member_key_to_field")
-    for occ in (None, "Optional", "ZeroOrMore"):
+    # the spelled-out forms of `?` (RFC 8610 3.2: `?` is 0*1) make a member optional as well
+    OCCS = {None: None, "Optional": ("Optional", {}), "ZeroOrMore": ("ZeroOrMore", {}),
+            "0*1": ("Exact", {"lower": ("Some", 0), "upper": ("Some", 1)}), "*1": ("Exact", {"lower": ("None",), "upper": ("Some", 1)}),
+            "1*1": ("Exact", {"lower": ("Some", 1), "upper": ("Some", 1)})}
+    for occ in OCCS:
         for ty in ("T", "Option<T>"):
             key = "occurrence %s|type %s" % (occ or "none", ty)
             vm = ("enum", "ValueMemberKeyEntry", {
                 "member_key": ("Some", ("enum", "MemberKey::Bareword", {"ident": ("enum", "Identifier", {"ident": ("str", "k"), "socket": ("None",)})})),
-                "occur": ("None",) if occ is None else ("Some", ("enum", "Occurrence", {"occur": ("enum", "Occur::" + occ, {})})),
+                "occur": ("None",) if occ is None else ("Some", ("enum", "Occurrence", {"occur": ("enum", "Occur::" + OCCS[occ][0], dict(OCCS[occ][1]))})),
                 "entry_type": ("atom", "TYPE")})
 
             def on_call(kind, nm, node, args, recv, ty=ty):
@@ -351,7 +355,10 @@ def r_optional(ctx):
                         return 1
                     if b == "is_vec_occurrence":
                         o = args[0]
-                        return isinstance(o, tuple) and o[1].split("::")[-1] in ("ZeroOrMore", "OneOrMore", "Exact")
+                        if isinstance(o, tuple) and o[1].split("::")[-1] == "Exact":
+                            up = o[2].get("upper")
+                            return not (isinstance(up, tuple) and up[0] == "Some" and isinstance(up[1], int) and up[1] <= 1)
+                        return isinstance(o, tuple) and o[1].split("::")[-1] in ("ZeroOrMore", "OneOrMore")
                     if b == "type_tagged_prelude":
                         return ("None",)
                 if kind == "method" and nm == "docs_for":
@@ -380,11 +387,12 @@ def r_optional(ctx):
             if not isinstance(fld.get("is_optional"), bool):
                 ctx.incomplete_msg(rid, "%s: is_optional evaluates to %r" % (key, fld.get("is_optional")))
                 continue
-            if fld.get("is_optional") is not (occ == "Optional"):
+            if fld.get("is_optional") is not (occ in ("Optional", "0*1", "*1")):
                 ctx.violation(rid, "optional|occurrence %s|%s" % (occ or "none", "nullable" if ty.startswith("Option") else "plain"), F, fi.line,
                               "a member with occurrence %s and type %s is generated with is_optional = %r: %s"
                               % (occ or "none", ty, fld.get("is_optional"),
-                                 "a required member holding null is dropped when serialised and the result no longer validates" if occ is None else "optionality does not follow `?`"))
+                                 "a required member holding null is dropped when serialised and the result no longer validates" if occ is None else
+                                 "optionality does not follow `?` and its spelled-out forms 0*1 / *1: an instance without the member validates but does not deserialise"))
 
 
 def run(ctx):
